@@ -123,6 +123,11 @@ def run_check(prop, tier="quick", out=sys.stdout):
                 tb = traceback.format_exc()
                 ctx.anchor_missing("R-%s-engine" % prop, "engine error (thorough): %s\n%s" % (e, tb[-1500:]))
         all_instances.extend(ctx.instances)
+        if os.environ.get("VERIF_LIST"):
+            # debugging aid: list every non-trivial obligation that was evaluated
+            for d in ctx.instances:
+                if not d.get("trivial"):
+                    out.write("  [%s] %s %s\n" % (d["status"], d["key"], d.get("site", "")))
         notes.extend(ctx.notes)
         for k, v in ctx.stats.items():
             stats["%s/%s" % (config, k)] = v
